@@ -452,6 +452,38 @@ def run_quiesce(s, J, op, plan, degenerate, results, counts):
         out.append(dict(prop=props, oracle="liveness", sig=sig0 + ("no_convergence_ample_budget",),
                         detail=dict(stop_crit=res["stop_crit"], tol=tol, knobs=knobs),
                         feat=J.feat(res, dict(n_outer=(res.get("seam") or {}).get("outer")))))
+    # ---- C05 (d): a warm start "yields ... a result meeting the same optimality certificate as a
+    # cold start on that problem" - so where a cold start of the same problem with the same knobs
+    # and budget claims convergence quickly (<= 20 outer iterations of the 200 granted), a warm
+    # start that exhausts the whole budget without converging does not.  Convex penalties,
+    # coordinate-descent solvers, quadratic-type losses (their rate does not depend on the start
+    # point), tolerance well above rounding.
+    if warm and not claimed and op.get("liveness", True) and pr.pen.convex \
+            and s.solver_name in ("AndersonCD", "GroupBCD", "MultiTaskBCD", "GramCD") \
+            and s.dname in (None, "Quadratic", "WeightedQuadratic", "QuadraticGroup", "QuadraticMultiTask") \
+            and np.isfinite(res["stop_crit"]) and not pr.pen.has_constraint \
+            and (s.solver_name != "GroupBCD"
+                 # (a block step uses one constant per group: a warm start far out along a badly
+                 # scaled or nearly collinear direction *inside* a group travels at the pace of the
+                 # group's condition number - slow by construction, not a defect)
+                 or (gen.get("rho", 1) <= 0.9 and gen.get("scale_decades", 9) <= 1.0
+                     and not str((plan["data"].get("degen") or {}).get("kind", "")).startswith("scale"))):
+        floor = 1e2 * pr.certificate(w, b, criterion="subdiff")["allowance"] if pr.pen.kind != "vec" else np.inf
+        if tol >= floor:
+            cold = s.call_solver(knobs, "cold", None, None, op.get("storage", plan.get("storage", "F")),
+                                 record=False)
+            s.probe("warm_vs_cold_liveness_compared")
+            if cold.get("exc") is None and cold.get("stop_crit") is not None \
+                    and claims_convergence(s.solver_name, cold["stop_crit"], tol) \
+                    and (((cold.get("seam") or {}).get("outer") or 0) <= 20 if s.solver_name != "GramCD"
+                         else ((cold.get("seam") or {}).get("epochs") or 0) <= 1000):
+                props = ["C05"] + (["C19"] if degenerate else [])
+                out.append(dict(prop=props, oracle="warm_liveness",
+                                sig=sig0 + ("warm_start_exhausts_budget_where_cold_start_converges",),
+                                detail=dict(stop_crit=res["stop_crit"], tol=tol,
+                                            cold_stop_crit=cold["stop_crit"],
+                                            cold_outer=(cold.get("seam") or {}).get("outer")),
+                                feat=J.feat(res, dict(n_outer=(res.get("seam") or {}).get("outer")))))
     if op.get("liveness_scale") and not claimed and pr.pen.convex and gen.get("rho", 1) <= 0.9 \
             and quad_like and pr.n >= pr.p + (1 if res["fi"] else 0) + 1 \
             and bool(pr.absX.any(axis=0).all()) and np.isfinite(res["stop_crit"]):
